@@ -446,6 +446,18 @@ class TCPHiddenServiceEndpoint(object):
                 "'single_hop=' flag only makes sense for ephemeral onions"
             )
 
+        # refuse keys the service creation would refuse anyway, before
+        # listen() has bound anything
+        if isinstance(private_key, str):
+            if '\r' in private_key or '\n' in private_key:
+                raise ValueError(
+                    "No newline or return characters allowed in key blobs"
+                )
+            if version == 3 and ':' in private_key and 'V3' not in private_key:
+                raise ValueError(
+                    "version=3 but private key isn't 'ED25519-V3'"
+                )
+
         try:
             public_port = int(public_port)
         except (TypeError, ValueError):
